@@ -17,7 +17,7 @@ for d in sorted(glob.glob(os.path.join(root, "C[0-9][0-9][a-z]"))):
         files = [files]
     where = ", ".join(sorted({re.sub(r"^/tmp/wt-[^/]*/", "", f).split(" ")[0] for f in files if "/" in f and "seeded" not in f}))[:60]
     summ = (meta.get("summary") or meta.get("mechanism") or "")
-    summ = re.sub(r"\s+", " ", summ)[:150]
+    summ = re.sub(r"\s+", " ", summ)[:150].replace("|", "\\|")
     q, t = res.get("quick_exit"), res.get("thorough_exit")
     classes = ""
     lp = os.path.join(root, "_results", sid + ".log")
